@@ -29,7 +29,7 @@ decidable condition `Spec.marshalClean` on the call sequence; per call it is `ow
 -/
 import Restful.Lemmas.Response
 import Restful.Lemmas.StateShape
-import Restful.Lemmas.Translated
+import Restful.Lemmas.TieResponse
 namespace Restful
 namespace Props
 open Resp Spec
@@ -267,7 +267,7 @@ end C15Example
 -- also: Restful.StateShape.consts_shape
 -- also: Restful.StateShape.response_shape
 
-/-! The regenerated tie (tools/gotrans → Gen/Translated.lean, Lemmas/Translated.lean): the decision
+/-! The regenerated tie (tools/gotrans → Gen/Translated.lean, Lemmas/Tie*.lean): the decision
     functions this property's model contains ARE the ones translated from the Go sources on this run. -/
 -- also: Restful.Tie.response_status_code
 
